@@ -32,9 +32,9 @@ def sset(xs):
     return "{" + ",".join('"%s"' % x for x in xs) + "}"
 
 
-A_OK = ["A1", "A2", "Ac", "Anx", "And", "Ands", "Afail"]
+A_OK = ["A1", "A2", "Ac", "Anx", "And", "Ands", "Afail", "Abig"]     # Abig/Bbig: frames longer than the EDNS(0) size (TCP)
 A_BAD = ["Atc", "Aq0", "Ara0", "Aunk", "Abq", "Aba", "Abau"]
-B_OK = ["B1", "B2", "Bnx", "Bnd", "Bnds", "Bfail"]
+B_OK = ["B1", "B2", "Bnx", "Bnd", "Bnds", "Bfail", "Bbig"]
 B_BAD = ["Btc", "Bq0", "Bra0", "Bba", "Bbau"]
 OTHER = ["Fid", "Short"]
 ALLSRV = A_OK + A_BAD + B_OK + B_BAD + OTHER
@@ -103,13 +103,60 @@ REPLAY = {
 UDPX = dict(t0=400, t1=3, t2=1000, ts=1000)      # TTL-crossing real-time replays: T1 = 3 s against advances of 6 s
 # real-time UDP behaviours that cross a TTL (6 s sleeps) or wait for the 20 s UDP timeout ("silence")
 UDPSLOW = {
-    "quick": [("ttl", mk(["A1", "B1", "B2", "Bnx"], udp=True, maxlook=2, maxadv=1, deltas=(6,), **UDPX), 12, "Advance"),
-              ("silence", mk(["A2", "B2", "OA2"], udp=True, maxlook=1, maxadv=1, deltas=(20,), **UDPT), 6, "UdpTimeout"),
+    "quick": [("silence", mk(["A2", "B2", "OA2"], udp=True, maxlook=1, maxadv=1, deltas=(20,), **UDPT), 6, "UdpTimeout"),
               ("silence1", mk(["A2", "OB2"], udp=True, tcp=False, maxlook=1, maxadv=1, deltas=(20,), **UDPT), 3, "UdpTimeout")],
     "thorough": [("ttl", mk(["A1", "B1", "B2", "Bnx", "Bfail"], udp=True, maxlook=3, maxadv=2, deltas=(6,), **UDPX), 160, "Advance"),
                  ("silence", mk(["A2", "B2", "OA2", "Atc", "Bfail"], udp=True, maxlook=2, maxadv=1, deltas=(20,), **UDPT), 64, "UdpTimeout"),
                  ("silence1", mk(["A2", "B2", "OB2"], udp=True, tcp=False, maxlook=2, maxadv=1, deltas=(20,), **UDPT), 32, "UdpTimeout")],
 }
+# Real-time TTL crossings of results assembled over BOTH transports: every behaviour of the shapes below
+# (small / large TTLs on either side, complete / truncated UDP answers, the rest over TCP), then an
+# advance past the small TTL and a second lookup.  (config, {shape: max behaviours})
+UDPMIX_CFG = mk(["A1", "A2", "B1", "B2", "Atc", "Btc"], udp=True, maxlook=2, maxadv=1, deltas=(6,), **UDPX)
+UDPMIX = {"quick": {"udp+tc+tcp": 24, "tc+tcp+tcp": 12, "udp+udp": 8},
+          "thorough": {"udp+tc+tcp": None, "tc+tcp+tcp": None, "udp+udp": None}}
+
+
+def _is(n, **kw):
+    def f(a):
+        if a.get("n") != n:
+            return False
+        arg = a.get("arg")
+        for k, v in kw.items():
+            if k == "arg":
+                if arg != v:
+                    return False
+            elif not isinstance(arg, dict) or arg.get(k) != v:
+                return False
+        return True
+    return f
+
+
+L, ADV, DIAL, T = _is("Lookup"), _is("Advance"), _is("TcpDial", arg="ok"), _is("TcpRecv", tc=False)
+U, UTC = _is("UdpRecv", tc=False, src="srv"), _is("UdpRecv", tc=True, src="srv")
+SHAPES = {"udp+tc+tcp": [L, U, UTC, DIAL, T, ADV, L],
+          "tc+tcp+tcp": [L, UTC, DIAL, T, T, ADV, L],
+          "udp+udp": [L, U, U, ADV, L]}
+
+
+def paths_of_shape(g, preds):
+    """Every path from an initial state whose i-th action satisfies preds[i]."""
+    out = []
+
+    def go(node, i, acc):
+        if i == len(preds):
+            out.append(list(acc))
+            return
+        for ei in g.succ.get(node, ()):
+            if preds[i](g.edges[ei][1]):
+                acc.append(ei)
+                go(g.edges[ei][2], i + 1, acc)
+                acc.pop()
+    for n0 in g.inits:
+        go(n0, 0, [])
+    return out
+
+
 # -simulate walks with larger constants (thorough)
 SIMULATE = {
     "quick": [],
@@ -123,6 +170,12 @@ LRU = {
                 [dict(Keys=sset(["k1", "k2", "k3", "k4"]), Vals="{1}", Cap=3, MaxOps=7)],
 }
 GARBAGE = {"quick": 400, "thorough": 8000}
+
+
+def big_frame(e):
+    """Edges that deliver a TCP frame longer than the advertised EDNS(0) size come first in a capped cover."""
+    a = e[1]
+    return (a.get("n") == "TcpRecv" and a["arg"].get("k") in ("Abig", "Bbig")) or (a.get("n") == "TcpCut" and a.get("arg") == "big")
 
 
 def measured(binary, seed):
@@ -266,6 +319,8 @@ def run(tier, seed, replay):
         jobs["graph/" + name] = ex.submit(tlc, name, cfg, kb, inv_g, True, 4, tmo)
     for name, cfg, n, what in slow_cfgs:
         jobs["slow/" + name] = ex.submit(tlc, name, cfg, kb, inv_g, True, 2, tmo)
+    if "slow" not in skip:
+        jobs["slow/mix"] = ex.submit(tlc, "mix", UDPMIX_CFG, kb, inv_g, True, 2, tmo)
     for name, cfg, n, depth, walks in sim_cfgs:
         jobs["sim/" + name] = ex.submit(tlc, name, cfg, kb, inv_g, True, 1, tmo, simulate="num=%d" % n, depth=depth, seed=seed,
                                         edge_limit=1200000)
@@ -322,7 +377,7 @@ def run(tier, seed, replay):
         if r.violation:
             raise vlib.Broken("graph configuration %s violates %s" % (name, r.violation))
         g = vlib.Graph(r)
-        paths, left = g.cover(seed=seed, max_len=40, max_paths=maxp)
+        paths, left = g.cover(seed=seed, max_len=40, max_paths=maxp, prefer=big_frame)
         graphs[name] = {"distinct": r.distinct, "edges": len(g.edges), "paths": len(paths), "uncovered_edges": left,
                         "constants": {x: cfg[x] for x in cfg}}
         batches.append((name, test, params_of(cfg, kb), [g.behaviour(p) for p in paths]))
@@ -336,6 +391,28 @@ def run(tier, seed, replay):
         paths = [p for p in paths if any(g.edges[i][1].get("n") == what for i in p)][:n]
         graphs["slow/" + name] = {"distinct": r.distinct, "edges": len(g.edges), "paths": len(paths)}
         batches.append(("slow/" + name, "TestReplayUdp", params_of(cfg, kb), [g.behaviour(p) for p in paths]))
+    if "slow/mix" in jobs:
+        import random
+        r = done("slow/mix")
+        states += r.distinct
+        trans += r.generated
+        g = vlib.Graph(r)
+        rnd = random.Random(seed)
+        behs, shapes = [], {}
+        for shape, cap in UDPMIX[tier].items():
+            ps = paths_of_shape(g, SHAPES[shape])
+            # only crossings that end in a lookup of the name that was stored
+            ps = [p for p in ps if g.edges[p[0]][1].get("arg") == g.edges[p[-1]][1].get("arg")]
+            rnd.shuffle(ps)
+            if shape == "udp+tc+tcp":
+                # smallest TTL on the complete UDP answer first: the order in which a later, larger TTL could win
+                ps.sort(key=lambda p: 0 if g.edges[p[1]][1]["arg"]["k"] in ("A1", "B1") else 1)
+            shapes[shape] = {"found": len(ps), "replayed": len(ps if cap is None else ps[:cap])}
+            behs += [g.behaviour(p) for p in (ps if cap is None else ps[:cap])]
+        graphs["slow/mix"] = {"distinct": r.distinct, "edges": len(g.edges), "paths": len(behs), "shapes": shapes}
+        if not behs:
+            raise vlib.Broken("no mixed-transport TTL behaviour found in the graph of UDPMIX_CFG")
+        batches.append(("slow/mix", "TestReplayUdp", params_of(UDPMIX_CFG, kb), behs))
     for name, cfg, n, depth, walks in sim_cfgs:
         r = done("sim/" + name)
         g = vlib.Graph(r)
